@@ -17,6 +17,7 @@ import (
 	connect "github.com/bufbuild/connect-go"
 	"github.com/bufbuild/connect-go/verifharness/internal/h"
 	"google.golang.org/protobuf/proto"
+	"google.golang.org/protobuf/types/known/anypb"
 	"google.golang.org/protobuf/types/known/wrapperspb"
 )
 
@@ -413,8 +414,20 @@ func C18(r *h.Run) {
 	for i := 0; i < r.N(40, 400); i++ {
 		hcodes = append(hcodes, uint32(hc.U64()))
 	}
-	for _, c := range hcodes {
-		retErr = connect.NewError(connect.Code(c), errors.New("m"))
+	for ci, c := range hcodes {
+		ce := connect.NewError(connect.Code(c), errors.New("m"))
+		shape := "plain"
+		switch ci % 4 {
+		case 1:
+			// a detail of a type linked into neither side (a gateway relaying upstream details): the
+			// JSON body cannot be produced; the status line is still the code's
+			ce.AddDetail(&anypb.Any{TypeUrl: "type.googleapis.com/acme.upstream.v1.Reason", Value: []byte{0x0a, 0x03, 'a', 'b', 'c'}})
+			shape = "with a detail of a message type that is not linked in"
+		case 2:
+			ce.AddDetail(&anypb.Any{TypeUrl: "type.googleapis.com/google.protobuf.BytesValue", Value: []byte{0xff, 0xff}})
+			shape = "with a detail whose bytes are not a valid message of its type"
+		}
+		retErr = ce
 		req := httptest.NewRequest(http.MethodPost, "/verif.Svc/Do", bytes.NewReader(body))
 		req.Header.Set("Content-Type", "application/proto")
 		rec := httptest.NewRecorder()
@@ -422,11 +435,11 @@ func C18(r *h.Run) {
 			r.Fail(h.Failure{Key: "code-http/panic", Family: "code_http", What: fmt.Sprint("panic: ", p), Input: c})
 			continue
 		}
-		r.Eval("code_http", fmt.Sprint(c))
-		r.Sample("code_http", map[string]any{"code": c, "status": rec.Code})
-		r.Case("code_http", fmt.Sprintf("CodeHTTP %d %d", c, rec.Code), map[string]any{"code": c, "impl_status": rec.Code})
+		r.Eval("code_http", fmt.Sprint(c, shape))
+		r.Sample("code_http", map[string]any{"code": c, "error": shape, "status": rec.Code})
+		r.Case("code_http", fmt.Sprintf("CodeHTTP %d %d", c, rec.Code), map[string]any{"code": c, "error": shape, "impl_status": rec.Code})
 		if rec.Code < 400 || rec.Code > 599 {
-			r.Fail(h.Failure{Key: "code-http/not-4xx5xx", Family: "code_http", What: "error code mapped to a non-4xx/5xx status", Input: c, Actual: rec.Code})
+			r.Fail(h.Failure{Key: "code-http/not-4xx5xx", Family: "code_http", What: "error code mapped to a non-4xx/5xx status", Input: map[string]any{"code": c, "error": shape}, Actual: rec.Code})
 		}
 	}
 	// Grpc-Message carried on a real gRPC response (recorder keeps raw header values)
